@@ -48,7 +48,8 @@ func (b *MockBackend) RPC() tikv.Client { return b.rpc }
 func (b *MockBackend) PD() pd.Client    { return b.pdc }
 
 func (b *MockBackend) SplitAt(key []byte) {
-	r, _, _, _ := b.Cluster.GetRegionByKey(key)
+	// the cluster keeps region ranges in mem-comparable form and looks keys up in that form
+	r, _, _, _ := b.Cluster.GetRegionByKey(mocktikv.NewMvccKey(key))
 	if r == nil || bytes.Equal(r.StartKey, mocktikv.NewMvccKey(key)) {
 		return
 	}
@@ -59,7 +60,7 @@ func (b *MockBackend) SplitAt(key []byte) {
 }
 
 func (b *MockBackend) TransferLeader(key []byte) {
-	r, leader, _, _ := b.Cluster.GetRegionByKey(key)
+	r, leader, _, _ := b.Cluster.GetRegionByKey(mocktikv.NewMvccKey(key))
 	if r == nil || len(r.Peers) < 2 {
 		return
 	}
